@@ -94,7 +94,12 @@ func c13Case(r *core.Run, idx int, rng *rand.Rand) {
 	switch rng.Intn(5) {
 	case 0:
 		expiry = "passed"
-		l.NotOnOrAfter = fmtTS(now.Add(farPast(rng)))
+		if rng.Intn(3) == 0 {
+			// expired a moment ago, written with its fraction (whatever precision the IdP's own layout has)
+			l.NotOnOrAfter = tsFrac(now.Add(justPast(rng)), 3+rng.Intn(7))
+		} else {
+			l.NotOnOrAfter = fmtTS(now.Add(farPast(rng)))
+		}
 	case 1:
 		expiry = "unparseable"
 		l.NotOnOrAfter = badTimestamps[rng.Intn(len(badTimestamps))]
